@@ -183,6 +183,10 @@ func (c Command) ForEach(ctx context.Context, payload xml.TokenReader, s *xmpp.S
 		}
 		c, payload, err = f(resp, respPayload)
 		if err != nil {
+			// The response must be closed on this path too, or the session stops
+			// processing its input for ever.
+			/* #nosec */
+			respPayload.Close()
 			return err
 		}
 		err = respPayload.Close()
